@@ -56,13 +56,44 @@ pub fn shard_evict(def: &E2Def, tier: &str, seed: u64, shard: u32, programs: u32
     let mut out = ShardOut::default();
     let mut stats: BTreeMap<String, u64> = BTreeMap::new();
     let mut rng = seed ^ (u64::from(shard) << 33) ^ 0x5151_5151;
-    'prog: for _ in 0..programs {
+    'prog: for pi in 0..programs {
         let mut case = cs.new_tree(&mut r).unwrap().current();
         case.cfg.pos_scale = 64_000;
         if case.cfg.ks.len() < 2 {
             let mut k = case.cfg.ks[0].clone();
             k.memtable = if k.memtable == 256 { 64 * 1024 * 1024 } else { 256 };
             case.cfg.ks.push(k);
+        }
+        // every fourth program is a "rotation storm": values above the rotation threshold into a
+        // constantly flushing keyspace, a lagging keyspace that pins sealed journals, worker steps after
+        // every write — journal ids run into two digits and many sealed journals coexist
+        if pi % 8 == 7 {
+            case.cfg.ks.truncate(2);
+            case.cfg.ks[0].memtable = 256;
+            case.cfg.ks[1].memtable = 64 * 1024 * 1024;
+            for k in &mut case.cfg.ks {
+                if matches!(k.strategy, Strat::FifoNoEvict) {
+                    k.strategy = Strat::LeveledDefault;
+                }
+            }
+            let mut ops = vec![];
+            let mut x = rng | 1;
+            for i in 0..36u32 {
+                x ^= x << 13;
+                x ^= x >> 7;
+                x ^= x << 17;
+                let key = B::L(format!("s{}", x % 7).into_bytes());
+                ops.push(Op::Insert { ks: 0, k: key.clone(), v: B::R { len: 1100 + (x % 400) as u32, seed: (x >> 8) as u8, rnd: true } });
+                if i % 5 == 1 {
+                    ops.push(Op::Insert { ks: 65535, k: key, v: B::L(vec![i as u8; 9]) });
+                }
+                if i % 11 == 7 {
+                    ops.push(Op::Reopen { alt: 0 });
+                }
+                ops.push(Op::Step { n: 3 });
+            }
+            case.ops = ops;
+            *stats.entry("rotation_storm_programs".into()).or_insert(0) += 1;
         }
         // one more write into every keyspace, so that "every keyspace was flushed" really involves a
         // flush of each (an empty memtable is not rotated, and journal maintenance only runs on
@@ -84,6 +115,10 @@ pub fn shard_evict(def: &E2Def, tier: &str, seed: u64, shard: u32, programs: u32
             Err(e) => {
                 if e.contains("journal_count()") {
                     fail(&mut out, &case, Inject::default(), e);
+                    break 'prog;
+                }
+                if e.starts_with("UNINJECTED-RUN-FAILED") {
+                    out.failure = Some(uninjected_failure(def.id, &case, &e));
                     break 'prog;
                 }
                 *stats.entry("count_run_failed".into()).or_insert(0) += 1;
